@@ -265,6 +265,36 @@ def product_cases():
                     yield {"desc": desc, "route": "mem", "target": target}
 
 
+def special_cases():
+    """Values whose encoding is produced more than once while an envelope is created (once for the digest, once for the output): every
+    value shape of the language in a sequence kept in the manifest (wrapper digest) and in a severed member present in the envelope."""
+    values = [
+        {"suit-condition-image-match": ["suit-send-record-failure", "suit-send-sysinfo-failure", "suit-send-record-failure"]},  # a flag named twice
+        {"suit-condition-vendor-identifier": ["suit-send-record-success"] * 2},
+        {"suit-directive-fetch": []},
+        {"suit-directive-override-parameters": {"suit-parameter-version": {"suit-condition-version-comparison-greater-equal": "1.2.3-rc.1"}}},
+        {"suit-directive-override-parameters": {"suit-parameter-version": {"suit-condition-version-comparison-equal": "2.0-alpha"}}},
+        {"suit-directive-override-parameters": {"suit-parameter-version": {"suit-condition-version-comparison-lesser": [1, 2, -1, 4]}}},
+        {"suit-directive-set-component-index": [0, 1, 1, 0]},
+        {"suit-directive-set-component-index": True},
+        {"suit-directive-override-parameters": {"suit-parameter-invoke-args": {"suit-timeout": 5, "suit-synchronous-invoke": True}}},
+        {"suit-directive-override-parameters": {"suit-parameter-uri": "#x", "suit-parameter-content": "00ff", "suit-parameter-image-size": {"raw": 7}}},
+        {"suit-directive-try-each": [[{"suit-condition-image-match": ["suit-send-sysinfo-success"] * 3}], []]},
+        {"suit-directive-run-sequence": [{"suit-directive-invoke": ["suit-send-record-failure", "suit-send-record-failure"]}]},
+    ]
+    comps = {"suit-components": [["M", 1], ["M", 1]]}
+    for i, v in enumerate(values):
+        alg = list(R.HASH_ALGS)[i % len(R.HASH_ALGS)]
+        base = {"suit-manifest-version": 1, "suit-manifest-sequence-number": i, "suit-common": dict(comps), "suit-current-version": ["1.0.0-beta.2", "3.1-rc", [1, 2, 3]][i % 3]}
+        wrapper = {"SuitDigest": {"suit-digest-algorithm-id": alg, "suit-digest-bytes": "22" * G.DIGEST_LEN[alg]}}
+        yield {"desc": {"SUIT_Envelope_Tagged": {"suit-authentication-wrapper": wrapper, "suit-manifest": {**base, "suit-validate": [v]}}}, "route": "mem", "target": None}
+        for member in ("suit-install", "suit-payload-fetch"):
+            man = {**base, member: {"suit-digest-algorithm-id": alg}}
+            yield {"desc": {"SUIT_Envelope_Tagged": {"suit-authentication-wrapper": wrapper, "suit-manifest": man, member: [v]}}, "route": "mem" if i % 2 else "yaml", "target": None}
+        inner = {"SUIT_Envelope_Tagged": {"suit-authentication-wrapper": wrapper, "suit-manifest": {**base, "suit-validate": [v]}}}
+        yield {"desc": {"SUIT_Envelope_Tagged": {"suit-authentication-wrapper": wrapper, "suit-manifest": dict(base), "suit-integrated-dependencies": {"#d": inner}}}, "route": "mem", "target": None}
+
+
 def plan(ctx):
     specs = [{"kind": "product", "mod": 4, "rem": r, "guard_off": r == 0} for r in range(4)]
     n = 12
@@ -288,6 +318,15 @@ def run_shard(ctx, spec):
                 continue
             try:
                 judge(case, acc, ctx)
+            except Violation as v:
+                if not any(f["bucket"] == v.bucket for f in acc.failures):
+                    acc.fail("product", case, v.observed, v.expected, bucket=v.bucket)
+        for i, case in enumerate(special_cases()):
+            if i % spec["mod"] != spec["rem"]:
+                continue
+            try:
+                judge(case, acc, ctx)
+                acc.note("special-value-shapes")
             except Violation as v:
                 if not any(f["bucket"] == v.bucket for f in acc.failures):
                     acc.fail("product", case, v.observed, v.expected, bucket=v.bucket)
